@@ -685,7 +685,7 @@ func checkC14(p *Prog, r *Report) {
 	// eviction loop
 	rule = "E5.no-protected-eviction"
 	var removals []*ssa.Call
-	eachInstr(cl, false, func(_ *ssa.Function, i ssa.Instruction) {
+	eachInstrS(cl, func(_ *ssa.Function, i ssa.Instruction) {
 		if c, ok := i.(*ssa.Call); ok && isCallTo(c, "os.Rename", "fs.RemoveAll", "os.RemoveAll", "os.Remove") {
 			removals = append(removals, c)
 		}
